@@ -200,6 +200,9 @@ def errors(repo):
         raise ValueError(f"error.c: only {len(ents)} LibErrors entries parsed")
     if len(ents) != len(re.findall(r"\[\s*\w+\s*\]\s*=\s*\{", tab.group(1))):
         raise ValueError("error.c: some LibErrors entries could not be parsed")
+    hdr = _strip_comments(_read(repo, "include/express/error.h"))
+    if not re.search(r"enum\s*\w*\s*\{\s*SEVERITY_WARNING\s*=\s*0\s*,", hdr) and not re.search(r"\{\s*SEVERITY_WARNING\s*=\s*0\s*,", hdr):
+        raise ValueError("error.h: SEVERITY_WARNING is no longer the lowest severity (= 0)")
     sw = _body(t, r"void\s+ERRORset_warning\s*\([^)]*\)\s*\{", "ERRORset_warning")
     m = re.search(r"if\s*\(\s*err->severity\s*<=\s*SEVERITY_WARNING\s*&&(.*?)!\s*strcmp\s*\(\s*err->name\s*,\s*name\s*\)", sw, re.S)
     if not m:
@@ -220,10 +223,13 @@ def errors(repo):
     hooks = []
     for rel in ("src/exp2cxx/fedex_main.c", "src/exp2python/src/fedex_main_python.c"):
         b = _body(_strip_comments(_read(repo, rel)), r"int\s+success\s*\([^)]*\)\s*\{", rel + " success")
-        hooks += [int(x) for x in re.findall(r"return\s*\(?\s*(\d+)\s*\)?\s*;", b)]
+        hk = [int(x) for x in re.findall(r"return\s*\(?\s*(\d+)\s*\)?\s*;", b)]
+        if len(hk) != 1:
+            raise ValueError(f"{rel}: success() should have exactly one literal return")
+        hooks += hk
     return dict(env=env, heap=heap, alloc=alloc, span=span, bounded=bounded, clamp=clamp, space_guard=space_guard,
                 count_guard=count_guard, next_guard=next_guard, ents=ents, name_guard=name_guard,
-                fail=int(mf[0]), succeed=int(ms[0]), usage=sorted(set(usage)), hooks=sorted(set(hooks)))
+                fail=int(mf[0]), succeed=int(ms[0]), usage=usage, hooks=hooks)
 
 
 # ---------------------------------------------------------------- exppp
@@ -382,20 +388,17 @@ def extract(repo):
     sgd_ = e["space_guard"]
     A(f"  spaceGuard := {_opt(None if sgd_ is None else f'({sgd_[0]}, {sgd_[1]})')}, countGuard := {_opt(e['count_guard'])} }}")
     A("")
-    A("/-- `LibErrors[]`: (code name, severity is at most SEVERITY_WARNING, warning-class name is NULL) -/")
-    A("def libErrorClasses : List (String × Bool × Bool) := [")
+    A("/-- `LibErrors[]`: (code name, severity is at most SEVERITY_WARNING, warning-class name or none for NULL) -/")
+    A("def libErrorClasses : List (String × Bool × Option String) := [")
     rows = []
     for code, sev, _msg, cls in e["ents"]:
-        rows.append(f'  ("{code}", {str(sev == "SEVERITY_WARNING").lower()}, {str(cls == "NULL").lower()})')
+        rows.append(f'  ("{code}", {str(sev == "SEVERITY_WARNING").lower()}, {"none" if cls == "NULL" else "some " + cls})')
     A(",\n".join(rows) + "]")
     A("/-- `ERRORset_warning` tests `err->name` before `strcmp( err->name, name )` -/")
     A(f"def setWarningNameGuard : Bool := {str(e['name_guard']).lower()}")
     A("")
     A("/-- exit statuses: EXPRESS_fail, EXPRESS_succeed defaults, `success` hooks of the generators, usage functions -/")
-    A(f"def exitFail : Nat := {e['fail']}")
-    A(f"def exitSucceed : Nat := {e['succeed']}")
-    A(f"def exitSuccessHooks : List Nat := {e['hooks']}")
-    A(f"def exitUsage : List Nat := {e['usage']}")
+    A(f"def exitCfg : ExitCfg := {{ fail := {e['fail']}, succeed := {e['succeed']}, hooks := {e['hooks']}, usage := {e['usage']} }}")
     A("")
     A("/-- exppp.c `wrap()` / `raw()`: local buffer and how the fragment is formatted into it -/")
     A(f"def wrapFmt : FmtCfg := {{ cap := {x['wrap'][0]}, call := {x['wrap'][1]} }}")
